@@ -6,6 +6,7 @@ each union was taken, which positions are uninterpreted payload.
 """
 from __future__ import annotations
 
+import copy
 import hashlib
 import json
 import math
@@ -164,6 +165,26 @@ def walk(tv: TV, path: Tuple = ()) -> Iterator[Tuple[Tuple, TV]]:
             yield from walk(v, path + (("k", k),))
     elif isinstance(tv, U):
         yield from walk(tv.child, path + (("u",),))
+
+
+def reorder(tv: TV, mode: str) -> TV:
+    """the same value with the members of every object written in another order ("reversed" | "sorted"): JSON object
+    member order carries no meaning, so this is the same input to every property."""
+    if isinstance(tv, S):
+        items = [(k, reorder(v, mode)) for k, v in tv.props.items()]
+        items = list(reversed(items)) if mode == "reversed" else sorted(items, key=lambda kv: kv[0])
+        return S(tv.key, dict(items))
+    if isinstance(tv, L):
+        return L([reorder(x, mode) for x in tv.items])
+    if isinstance(tv, T):
+        return T([reorder(x, mode) for x in tv.items])
+    if isinstance(tv, Mp):
+        return tv.like({k: reorder(v, mode) for k, v in tv.items.items()})
+    if isinstance(tv, U):
+        u = copy.copy(tv)
+        u.child = reorder(tv.child, mode)
+        return u
+    return tv
 
 
 def canon_hash(j: Any) -> str:
